@@ -100,6 +100,11 @@ def build(node, nrec=()):
     kind = node[0]
     if kind == "base":
         _, name, dt, shape, dims = node
+        if dims and (len(name) + len(shape)) % 2:
+            # dimensions given after construction (var.dims = [...], as the netCDF handler does for coordinate variables)
+            v = BaseType(name, np.zeros(nrec + shape, dtype=dt))
+            v.dims = list(dims)
+            return v
         return BaseType(name, np.zeros(nrec + shape, dtype=dt), dims=dims or ())
     if kind == "struct":
         st = StructureType(node[1])
